@@ -1,0 +1,92 @@
+//! Verification hooks (compiled only with `--cfg kahflane_turdb_verif`).
+//!
+//! Everything here is a call-out: the library announces that it reached a named point
+//! (a crash point, a successful sync of a file, a point between two critical sections)
+//! and an external harness that links this crate may register a callback. With no
+//! callback registered every hook is a cheap no-op, so behaviour is unchanged.
+
+use parking_lot::RwLock;
+use std::path::Path;
+use std::sync::atomic::{AtomicU64, Ordering};
+use std::sync::Arc;
+
+type NameHook = Arc<dyn Fn(&'static str) + Send + Sync>;
+type PathHook = Arc<dyn Fn(&Path) + Send + Sync>;
+
+static CRASH_HOOK: RwLock<Option<NameHook>> = RwLock::new(None);
+static SYNC_HOOK: RwLock<Option<PathHook>> = RwLock::new(None);
+static YIELD_HOOK: RwLock<Option<NameHook>> = RwLock::new(None);
+
+static CRASH_POINTS: AtomicU64 = AtomicU64::new(0);
+static YIELD_POINTS: AtomicU64 = AtomicU64::new(0);
+static FORCE_DEGRADED: AtomicU64 = AtomicU64::new(0);
+static GROUP_COMMIT_TIMEOUT_MS: AtomicU64 = AtomicU64::new(0);
+
+pub fn set_crash_hook(h: Option<NameHook>) {
+    *CRASH_HOOK.write() = h;
+}
+
+pub fn set_sync_hook(h: Option<PathHook>) {
+    *SYNC_HOOK.write() = h;
+}
+
+pub fn set_yield_hook(h: Option<NameHook>) {
+    *YIELD_HOOK.write() = h;
+}
+
+/// A point at which a crash is interesting (page mutation, WAL write, sync, catalog write, ...).
+#[inline]
+pub fn crash_point(kind: &'static str) {
+    CRASH_POINTS.fetch_add(1, Ordering::Relaxed);
+    let h = CRASH_HOOK.read().clone();
+    if let Some(h) = h {
+        h(kind);
+    }
+}
+
+/// The file at `path` was just synced successfully (msync/fsync/fdatasync returned Ok).
+#[inline]
+pub fn synced(path: &Path) {
+    let h = SYNC_HOOK.read().clone();
+    if let Some(h) = h {
+        h(path);
+    }
+}
+
+/// A point between two critical sections where another thread may legitimately run.
+#[inline]
+pub fn yield_point(name: &'static str) {
+    YIELD_POINTS.fetch_add(1, Ordering::Relaxed);
+    #[cfg(miri)]
+    std::thread::yield_now();
+    let h = YIELD_HOOK.read().clone();
+    if let Some(h) = h {
+        h(name);
+    }
+}
+
+pub fn crash_points_seen() -> u64 {
+    CRASH_POINTS.load(Ordering::Relaxed)
+}
+
+pub fn yield_points_seen() -> u64 {
+    YIELD_POINTS.load(Ordering::Relaxed)
+}
+
+/// Make `open_with_recovery` behave as if the WAL were too large for automatic recovery.
+pub fn set_force_degraded(on: bool) {
+    FORCE_DEGRADED.store(on as u64, Ordering::SeqCst);
+}
+
+pub fn force_degraded() -> bool {
+    FORCE_DEGRADED.load(Ordering::SeqCst) != 0
+}
+
+/// Override of the group-commit wait timeout (0 = library default).
+pub fn set_group_commit_timeout_ms(ms: u64) {
+    GROUP_COMMIT_TIMEOUT_MS.store(ms, Ordering::SeqCst);
+}
+
+pub fn group_commit_timeout_ms() -> u64 {
+    GROUP_COMMIT_TIMEOUT_MS.load(Ordering::SeqCst)
+}
